@@ -5,7 +5,7 @@ from . import common
 
 NAME = "U-appcode"
 TOOL = "verus"
-PROPS = ["C14", "C13", "C04", "C18", "C16", "C03"]
+PROPS = ["C14", "C13", "C04", "C18", "C16", "C03", "C02"]
 RLIMIT = 100
 TRUSTED = ["verus 0.2026.09.13 + z3", "A-vstd (Vec push, for-loop over &Vec)", "A-fmt (R4)", "A-clone: #[derive(Clone)] on AsmLine is structural"]
 
@@ -39,6 +39,8 @@ pub open spec fn renamed(src: AsmLine, dst: AsmLine, n: u32) -> bool {
         AsmLine::Instruction(i) => if local_ref(i.mnemonic) {
                 dst is Instruction && dst->Instruction_0.mnemonic == i.mnemonic && dst->Instruction_0.dasm_operand@ == i.dasm_operand@ + suffix(n)
                 && dst->Instruction_0.cycles == i.cycles && dst->Instruction_0.cycles_alt == i.cycles_alt && dst->Instruction_0.nb_bytes == i.nb_bytes
+                // a branch the generator protected (the BEQ that guards the second branch of a `>` / `<=` sequence) is still protected in the copy: the optimizer folds unprotected ones
+                && dst->Instruction_0.protected == i.protected
             } else { line_eq(dst, src) },
         _ => line_eq(dst, src),
     }
@@ -70,7 +72,7 @@ def build(repo):
     u = Unit(NAME, TOOL, PROPS, ["src/assemble.rs: AssemblyCode::append_code"],
              assumptions=["A-clone (derived Clone of AsmLine is structural)", "A-fmt", "A-vstd",
                           "labels of two expansions with different counters are not proved disjoint (would need the shape of generator labels)",
-                          "JSR operands and inline-assembly text are not renamed (by design of append_code); `protected` is reset on renamed branches (no obligation)",
+                          "JSR operands and inline-assembly text are not renamed (by design of append_code)",
                           "live registers at the call site, parameter passing and behavioural equivalence of inline vs. call are whole-program semantics (not decided)"])
     f, types, cuts = common.asm_types(repo)
     ac = f.fn("append_code", within="AssemblyCode")
@@ -86,7 +88,7 @@ def build(repo):
         ensures
             final(self).code@.len() == old(self).code@.len() + code.code@.len(), //@ C14:append-length
             final(self).code@.subrange(0, old(self).code@.len() as int) =~= old(self).code@, //@ C14:append-frame
-            forall|k: int| 0 <= k < code.code@.len() ==> renamed(code.code@[k], #[trigger] final(self).code@[old(self).code@.len() + k], inline_counter), //@ C14,C13,C04,C18,C16,C03:append-renamed-clone
+            forall|k: int| 0 <= k < code.code@.len() ==> renamed(code.code@[k], #[trigger] final(self).code@[old(self).code@.len() + k], inline_counter), //@ C14,C13,C04,C18,C16,C03,C02:append-renamed-clone
 """, expect_sig="fn append_code(&mut self, code: &AssemblyCode, inline_counter: u32)")
     ac.loop_spec(1, r"^for i in &code\.code$", """
             invariant
@@ -103,7 +105,7 @@ def build(repo):
                 // concatenation is associative (extensional equality hint)
                 if *i is Label { assert(((*i)->Label_0@ + "inline"@) + dec(inline_counter as int) =~= (*i)->Label_0@ + suffix(inline_counter)); }
                 if *i is Instruction { assert(((*i)->Instruction_0.dasm_operand@ + "inline"@) + dec(inline_counter as int) =~= (*i)->Instruction_0.dasm_operand@ + suffix(inline_counter)); }
-                assert(renamed(*i, self.code@[before.len() as int], inline_counter)); //@ C14,C13,C04,C18,C16,C03:append-line-renamed
+                assert(renamed(*i, self.code@[before.len() as int], inline_counter)); //@ C14,C13,C04,C18,C16,C03,C02:append-line-renamed
                 assert forall|k: int| 0 <= k < it.index@ implies renamed(code.code@[k], #[trigger] self.code@[old(self).code@.len() + k], inline_counter) by {
                     assert(self.code@[old(self).code@.len() + k] == before[old(self).code@.len() + k]);
                 }
